@@ -300,3 +300,17 @@ package coordinator
 //@   ensures retryable_failure_is_offered: directfail && retry ==> hhcalls == 1
 //@   ensures refused_handoff_is_an_error: hhcalls == 1 && !hhok ==> !sentok
 //@   ensures any_counts_queued: consistency == models.ConsistencyLevelAny && hhcalls == 1 && hhok ==> sentok
+
+// ---- C05.2: re-partitioning after a node failure never leaves a shard without a live owner ----
+// dirty(n) = node n has failed during this query (a.dirty). If some shard that has owners has only dirty
+// owners the function must return nil (the caller then fails the query); every bucket belongs to a clean node.
+//@ func (*remoteShardGroup).shuffleShards
+//@   props C05
+//@   loop 1 invariant buckets_clean: all(n, has(shardsByNodeID, n) ==> !syncmap_has(iptr(), n))
+//@   loop 1 invariant buckets_fresh: (shardsByNodeID == nil || fresh(shardsByNodeID)) && all(n, has(shardsByNodeID, n) ==> fresh(shardsByNodeID[n]))
+//@   loop 1 invariant served: all(k, 0, rangeindex+1, len(a.shards[k].Owners) > 0 ==> ex(j, 0, len(a.shards[k].Owners), !syncmap_has(iptr(), a.shards[k].Owners[j].NodeID)))
+//@   loop 2 invariant searching: nodeID == 0
+//@   loop 3 invariant searching: nodeID == 0
+//@   ensures no_shard_without_live_owner: result != nil ==> all(k, 0, len(a.shards), len(a.shards[k].Owners) > 0 ==> ex(j, 0, len(a.shards[k].Owners), !syncmap_has(iptr(), a.shards[k].Owners[j].NodeID)))
+//@   ensures buckets_clean: all(n, has(result, n) ==> !syncmap_has(iptr(), n))
+//@   modifies nothing
